@@ -1001,7 +1001,7 @@ def grid_layout(context, box, bottom_space, skip_stack, containing_block,
 
     # 3.1 Resolve the sizes of the grid columns.
     columns_sizes = _resolve_tracks_sizes(
-        column_sizing_functions, box.width, children_positions, implicit_second_1,
+        column_sizing_functions, box.width, children_positions, implicit_x1,
         'x', column_gap, context, box)
 
     # 3.2 Resolve the sizes of the grid rows.
